@@ -25,7 +25,16 @@ def patch_method(owner, name: str, make):
     key = (owner, name)
     if key in _installed:
         return
-    raw = owner.__dict__[name]
+    raw = owner.__dict__.get(name)
+    if raw is None:
+        # defined on a base class (or moved there by a refactor): wrap what the class actually resolves to
+        import inspect
+
+        if not hasattr(owner, name):
+            if core._CTX is not None:
+                core._CTX.counters[f"install.missing.{owner.__name__}.{name}"] += 1
+            return
+        raw = inspect.getattr_static(owner, name)
     if isinstance(raw, staticmethod):
         wrapped = staticmethod(make(raw.__func__))
     elif isinstance(raw, classmethod):
@@ -38,7 +47,11 @@ def patch_method(owner, name: str, make):
 
 def patch_function(module, name: str, make):
     """Rebind a module-level function everywhere it was imported by name."""
-    orig = getattr(module, name)
+    orig = getattr(module, name, None)
+    if orig is None:
+        if core._CTX is not None:
+            core._CTX.counters[f"install.missing.{module.__name__}.{name}"] += 1
+        return 0
     key = (module.__name__, name)
     if key in _installed:
         return
